@@ -28,6 +28,14 @@ fn nan_variants(r: &mut Rng, p: [f64; 4]) -> Vec<[f64; 4]> {
             out.push(q);
         }
     }
+    // an infinite element is not NaN: a tuple that is not counted must say so itself
+    for j in 0..4 {
+        if r.chance(1, 2) {
+            let mut q = p;
+            q[j] = if r.chance(1, 2) { f64::INFINITY } else { f64::NEG_INFINITY };
+            out.push(q);
+        }
+    }
     out
 }
 
